@@ -152,3 +152,28 @@ fn encoding_decode_stub_agrees_with_encoding_rs() {
         check(UTF_16LE, &v[..n]);
     }
 }
+
+/// The plain-arithmetic stub for `<Ipv4Addr as Display>::fmt` (C16 paging harnesses)
+/// writes exactly what std writes: every octet value in every position, plus random
+/// addresses.
+#[test]
+fn ipv4_display_stub_agrees_with_std() {
+    use std::net::Ipv4Addr;
+    struct W(Ipv4Addr);
+    impl std::fmt::Display for W {
+        fn fmt(&self, f: &mut std::fmt::Formatter<'_>) -> std::fmt::Result { stub_ipv4_fmt(&self.0, f) }
+    }
+    let mut r = Rng(0x1234_5678_9ABC_DEF1);
+    for pos in 0..4 {
+        for x in 0..=255u8 {
+            let mut o = [(r.next() & 0xff) as u8, (r.next() & 0xff) as u8, (r.next() & 0xff) as u8, (r.next() & 0xff) as u8];
+            o[pos] = x;
+            let ip = Ipv4Addr::from(o);
+            assert_eq!(W(ip).to_string(), ip.to_string());
+        }
+    }
+    for _ in 0..200_000 {
+        let ip = Ipv4Addr::from((r.next() & 0xffff_ffff) as u32);
+        assert_eq!(W(ip).to_string(), ip.to_string());
+    }
+}
